@@ -423,7 +423,7 @@ func c06Profile(c *mc.Ctx) {
 			col.Mean, col.Median, col.StdDeviation = f(2), f(0), f(1e300)
 		}
 		if mask&16 != 0 {
-			col.Percentiles = []float64{1, 2, 3}
+			col.Percentiles = []float64{1 + float64(4*ci), 2 + float64(4*ci), 3 + float64(4*ci)} // different per column
 		}
 		if mask&32 != 0 {
 			col.MinStrLen, col.MaxStrLen = 1, 65535
@@ -453,8 +453,16 @@ func c06Profile(c *mc.Ctx) {
 		c.Fail("profile-roundtrip", "profile does not read back (err %v, %d of %d bytes); %s", err, n, len(enc), desc)
 		return
 	}
+	// decoding another profile afterwards must not disturb the one already decoded
+	other := &objects.TableProfile{Version: 1, RowsCount: 3, Columns: []*objects.ColumnProfile{{Name: "z", Percentiles: []float64{9, 8, 7, 6}, TopValues: objects.ValueCounts{{Value: "o", Count: 5}}}}}
+	ob2 := bytes.NewBuffer(nil)
+	other.WriteTo(ob2)
+	if _, err := (&objects.TableProfile{}).ReadFrom(bytes.NewReader(ob2.Bytes())); err != nil {
+		c.Fail("profile-error", "decoding a second profile failed: %v", err)
+		return
+	}
 	if !reflect.DeepEqual(tp, back) {
-		c.Fail("profile-roundtrip", "profile read back differs; %s", desc)
+		c.Fail("profile-roundtrip", "profile read back differs from what was written (after a second profile was decoded); %s", desc)
 	}
 	buf2 := bytes.NewBuffer(nil)
 	back.WriteTo(buf2)
